@@ -28,11 +28,14 @@ pub enum Variant { FuturesFallible, FuturesNonFallible, Fallibles, NonFuturesFal
 pub struct Cfg { pub variant: Variant, pub timeout_ms: u64, pub instruments: usize, pub limit: u32, pub rt: Rt, pub script: Vec<Beh>,
     /// multi-thread runtime with a timeout only: the first item reaches the executor this many (real) milliseconds after the executor was spawned
     /// (an executor that has lived longer than its timeout), and ok / error items then suspend for a few yields
-    pub aged_ms: u64 }
+    pub aged_ms: u64,
+    /// futures + fallible executor: the (asynchronous) error callback takes this long (virtual time under the paused runtime) -- the futures timeout is about the
+    /// item's future, not about what the executor does with its outcome: a failed item stays a failed item however long its error callback takes
+    pub err_cb_ms: u64 }
 impl Cfg {
     pub fn json(&self) -> J {
         J::obj().with("executor", J::s(format!("{:?}", self.variant))).with("futures_timeout_ms", J::i(self.timeout_ms as i64)).with("instruments", J::s(INSTR_NAMES[self.instruments])).with("concurrency_limit", J::i(self.limit as i64))
-            .with("runtime", J::s(self.rt.describe())).with("items", J::s(format!("{:?}", &self.script[..self.script.len().min(40)]))).with("n_items", J::i(self.script.len() as i64)).with("first_item_arrives_after_ms", J::i(self.aged_ms as i64))
+            .with("runtime", J::s(self.rt.describe())).with("items", J::s(format!("{:?}", &self.script[..self.script.len().min(40)]))).with("n_items", J::i(self.script.len() as i64)).with("first_item_arrives_after_ms", J::i(self.aged_ms as i64)).with("error_callback_takes_ms", J::i(self.err_cb_ms as i64))
     }
 }
 
@@ -85,7 +88,13 @@ async fn drive<const I: usize>(cfg: Cfg, ledger: Arc<Ledger>) -> Observed {
     match cfg.variant {
         Variant::FuturesFallible => {
             let (l3, l4) = (ledger.clone(), ledger.clone());
-            let on_err = move |e: Box<dyn std::error::Error + Send + Sync>| { let l = l4.clone(); async move { let id = e.downcast_ref::<ItemError>().map(|x| x.0).unwrap_or(u32::MAX); l.err_callbacks.lock().unwrap().push(id) } };
+            let cb_ms = cfg.err_cb_ms;
+            let on_err = move |e: Box<dyn std::error::Error + Send + Sync>| { let l = l4.clone(); async move {
+                let id = e.downcast_ref::<ItemError>().map(|x| x.0).unwrap_or(u32::MAX);
+                l.err_callbacks.lock().unwrap().push(id);
+                if cb_ms > 0 { tk::yields(1).await; tokio::time::sleep(Duration::from_millis(cb_ms)).await }
+                l.err_callbacks_completed.lock().unwrap().push(id);
+            } };
             let t = cfg.timeout_ms;
             exec.spawn_executor(cfg.limit, on_err, on_close, aged(stream::iter(script.into_iter().enumerate().map(move |(i, b)| item_future(l3.clone(), i as u32, b, paused, t))), cfg.aged_ms));
         }
@@ -97,7 +106,7 @@ async fn drive<const I: usize>(cfg: Cfg, ledger: Arc<Ledger>) -> Observed {
             let (l3, l4) = (ledger.clone(), ledger.clone());
             let items = stream::iter(script.into_iter().enumerate().map(move |(i, b)| -> Result<u32, Box<dyn std::error::Error + Send + Sync>> { l3.state.lock().unwrap()[i] = 2; if matches!(b, Beh::Ok { .. }) { Ok(i as u32) } else { Err(Box::new(ItemError(i as u32))) } }));
             if cfg.variant == Variant::Fallibles {
-                let on_err = move |e: Box<dyn std::error::Error + Send + Sync>| { let id = e.downcast_ref::<ItemError>().map(|x| x.0).unwrap_or(u32::MAX); l4.err_callbacks.lock().unwrap().push(id) };
+                let on_err = move |e: Box<dyn std::error::Error + Send + Sync>| { let id = e.downcast_ref::<ItemError>().map(|x| x.0).unwrap_or(u32::MAX); l4.err_callbacks.lock().unwrap().push(id); l4.err_callbacks_completed.lock().unwrap().push(id) };
                 exec.spawn_fallibles_executor(cfg.limit, on_err, on_close, items);
             } else { exec.spawn_non_futures_executor(cfg.limit, on_close, items); }
         }
@@ -134,7 +143,13 @@ pub fn draw_cfg(rng: &mut Rng, only: Option<&str>, thorough: bool) -> Cfg {
     }
     // on the multi-thread runtime keep the number of never-completing items small (each costs one real timeout)
     if !paused && timeout_ms > 0 { let mut slow = 0; for b in script.iter_mut() { if matches!(b, Beh::Slow | Beh::SlowErr) { slow += 1; if slow > 6 { *b = Beh::Ok { y: 0, sleep: 0 } } } } }
-    Cfg { variant, timeout_ms, instruments: rng.below(6) as usize, limit: 1 + rng.below(8) as u32, rt, script, aged_ms }
+    // slow error callbacks: longer than the timeout (when there is one), or anything up to 300 ms of virtual time; on the multi-thread runtime the time is real, so only a few failing items then
+    let mut err_cb_ms = 0;
+    if variant == Variant::FuturesFallible && rng.chance(1, 3) {
+        err_cb_ms = if timeout_ms > 0 && rng.chance(2, 3) { 2 * timeout_ms } else if paused { 1 + rng.below(300) } else { 1 + rng.below(30) };
+        if !paused { let mut errs = 0; for b in script.iter_mut() { if matches!(b, Beh::Err { .. } | Beh::SlowErr) { errs += 1; if errs > 4 { *b = Beh::Ok { y: 0, sleep: 0 } } } } }
+    }
+    Cfg { variant, timeout_ms, instruments: rng.below(6) as usize, limit: 1 + rng.below(8) as u32, rt, script, aged_ms, err_cb_ms }
 }
 
 pub fn evaluate(cfg: &Cfg, ledger: &Ledger, o: &Observed) -> Vec<(String, String)> {
@@ -165,6 +180,9 @@ pub fn evaluate(cfg: &Cfg, ledger: &Ledger, o: &Observed) -> Vec<(String, String
         let mut cbs = ledger.err_callbacks.lock().unwrap().clone(); cbs.sort();
         let mut expect: Vec<u32> = cfg.script.iter().enumerate().filter(|(i, b)| (matches!(b, Beh::Err { .. }) && !legit_timeouts.contains(&(*i as u32))) || (!with_timeout && matches!(b, Beh::SlowErr))).map(|(i, _)| i as u32).collect(); expect.sort();
         if cbs != expect { p.push(("error_callback".into(), format!("the error callback was invoked for items {:?}, the failed items are {:?}", &cbs[..cbs.len().min(20)], &expect[..expect.len().min(20)]))) }
+        // ... and each invocation has run to its end by the time the executor reports the end of the stream (the executor awaits it as part of processing the item)
+        let mut done = ledger.err_callbacks_completed.lock().unwrap().clone(); done.sort();
+        if done != cbs { p.push(("error_callback_did_not_run_to_completion".into(), format!("the error callback was started for items {:?} but had run to its end only for {:?} when the close callback ran (it takes {} ms)", &cbs[..cbs.len().min(20)], &done[..done.len().min(20)], cfg.err_cb_ms))) }
     }
     // every item was processed (a failed or timed-out one does not stop the later ones); slow ones were cancelled when a timeout is set
     let st = ledger.state.lock().unwrap().clone();
